@@ -1598,3 +1598,5 @@ MANIFEST_CLAIM = dict(
          "Five recorded findings (F18, F25-F28) with native witnesses; proposed_fixes/C08.diff makes all obligations provable.",
     technique="contract-based deductive verification: AST->VC generation over the real source (z3), AST dominance analysis, native replay",
 )
+
+REPLAY_UNKNOWN = True    # undecided / out-of-subset items are searched natively (replay) before being reported UNDECIDED
